@@ -439,6 +439,77 @@ def cmd_matrix(ctx, broken, tmp, bindir, state, dist, extended=False):
     return mism
 
 
+# ------------------------------------------------------------------ several input files (the batch-of-files reader)
+def multi_file_clause(ctx, tmp, bindir, state, dist):
+    """obiconvert on SEVERAL file arguments (and on a directory), one of them damaged: the command goes through
+    ReadSequencesBatchFromFiles, whose per-file open / read errors must be as fatal as those of a single input.
+    Direct oracle: damaged file among the inputs => non-zero status in time; all intact => status 0 with every record."""
+    rng = ctx.rng
+    quick = ctx.quick
+    jobs = []
+    d = os.path.join(tmp, "multi")
+    os.makedirs(d, exist_ok=True)
+    k = 0
+    for fmt, gen in (("fasta", gen_fasta), ("fastq", gen_fastq)):
+        for codec in ("gz", "bz2", "xz", "zst"):
+            parts = [gen(rng, 40) for _ in range(3)]
+            # ids are s0.. / q0.. in every part: count records only
+            blobs = [compress(codec, x) for x in parts]
+            n = len(blobs[1])
+            faults = [("intact", None), ("cut-half", blobs[1][:n // 2]), ("cut-last", blobs[1][:n - 1]), ("cut-header", blobs[1][:max(1, HDRLEN[codec] - 4)])]
+            if not quick:
+                faults += [("cut-%d" % c, blobs[1][:c]) for c in rng.sample(range(1, n), 4)]
+            for tag, bad in faults:
+                for flags in ([], [CMD_FLAG[fmt]], ["--no-order"]) if (not quick or tag in ("intact", "cut-half")) else ([],):
+                    sub = os.path.join(d, "m%d" % k)
+                    os.makedirs(sub)
+                    names = []
+                    for i, b in enumerate(blobs):
+                        fn = os.path.join(sub, "in%d.%s.%s" % (i, fmt, codec))
+                        with open(fn, "wb") as f:
+                            f.write(bad if (i == 1 and bad is not None) else b)
+                        names.append(fn)
+                    jobs.append(dict(k=k, fmt=fmt, codec=codec, tag=tag, flags=flags, args=names, nrec=120, how="files"))
+                    k += 1
+                    if tag in ("intact", "cut-half") and not flags and codec == "gz":      # a directory is searched for *.gz only
+                        jobs.append(dict(k=k, fmt=fmt, codec=codec, tag=tag, flags=flags, args=[sub], nrec=120, how="directory"))
+                        k += 1
+
+    def one(j):
+        argv = [os.path.join(bindir, "obiconvert")] + j["flags"] + j["args"]
+        for attempt in range(2):
+            try:
+                p = subprocess.run(argv, capture_output=True, timeout=60)
+            except subprocess.TimeoutExpired:
+                if attempt:
+                    return dict(kind="timeout", nrec=0)
+                continue
+            nrec = p.stdout.count(b"\n>") + p.stdout.startswith(b">") if j["fmt"] == "fasta" else len([l for l in p.stdout.split(b"\n")[0::4] if l.startswith(b"@")])
+            return dict(kind="ok" if p.returncode == 0 else "reported", status=p.returncode, nrec=nrec, err=p.stderr.decode("utf8", "replace")[-300:])
+    with ThreadPoolExecutor(max_workers=8) as ex:
+        res = list(ex.map(one, jobs))
+    nbad = 0
+    for j, o in zip(jobs, res):
+        key = "multi:%s/%s/%s/%s" % (j["how"], j["fmt"], j["tag"], o["kind"])
+        dist[key] = dist.get(key, 0) + 1
+        if j["tag"] == "intact":
+            good = o["kind"] == "ok" and o["nrec"] == j["nrec"]
+            want = "status 0 and all %d records" % j["nrec"]
+        else:
+            good = o["kind"] == "reported"
+            want = "a non-zero exit status: one of the input files is cut short"
+        if not good:
+            nbad += 1
+            if nbad <= 3:
+                ctx.violation("multi_%s_%s_%s_%s" % (j["how"], j["fmt"], j["codec"], j["tag"]), dict(
+                    property="C17", kind="direct-oracle", route="multi-file",
+                    case=dict(format=j["fmt"], codec=j["codec"], fault=j["tag"], flags=j["flags"], how=j["how"],
+                              note="three compressed inputs of 40 records each; the SECOND one carries the fault; `obiconvert %s in0 in1 in2` (or the directory holding them)" % " ".join(j["flags"])),
+                    implementation={x: o[x] for x in o if x != "err"}, stderr_tail=o.get("err", "")[-200:], expected=want))
+    ctx.cov["multi_file_runs"] = len(jobs)
+    shutil.rmtree(d, ignore_errors=True)
+
+
 # ------------------------------------------------------------------ cases
 def make_bases(ctx, tmp):
     rng = ctx.rng
@@ -948,6 +1019,7 @@ def _run(ctx, broken, tmp, bases=None, faults=None, extended=False):
     # --- route 4: every other way a command opens a (compressed) input: explicit formats, EMBL / GenBank / ecoPCR / CSV, stdin
     if bindir is not None and len(bases) > 1:
         mism += cmd_matrix(ctx, broken, tmp, bindir, state, dist, extended)
+        multi_file_clause(ctx, tmp, bindir, state, dist)
         tm["cmd_s"] = round(time.time() - t0, 1)
     ctx.cov["cumulative_times"] = tm
     ctx.cov["run_s"] = round(time.time() - t0, 1)
